@@ -43,8 +43,9 @@ namespace glm
 	template<>
 	GLM_FUNC_QUALIFIER GLM_CONSTEXPR int abs(int x)
 	{
+		// Subtract on the unsigned type: (x ^ y) - y overflows for the most negative int
 		int const y = x >> (sizeof(int) * 8 - 1);
-		return (x ^ y) - y;
+		return static_cast<int>((static_cast<unsigned int>(x) ^ static_cast<unsigned int>(y)) - static_cast<unsigned int>(y));
 	}
 
 	template<typename T>
